@@ -228,6 +228,30 @@ impl FaultProbe {
                 cx.violation("C09", "C09:retry-differs-from-uninterrupted-commit", sc, &h, detail(json!({"differs": diff_keys(&re, &twin_reopened), "retried": re, "uninterrupted": twin_reopened})));
                 return;
             }
+            // the retried commit propagates: an empty replica that melds from the committer and refreshes shows
+            // the same state (the pack left behind by the failed attempt travels with the retried block)
+            // (only when the committer has applied every block it knows: after time travel it also forwards the
+            // blocks of the abandoned branch, and melded-but-unrefreshed blocks are not forwarded at all)
+            let all_applied = w.reps[r].m.verif_delta_status().values().all(|s| *s == "applied")
+                && w.reps[r].store.keys().iter().filter_map(|k| k.strip_suffix(".delta").map(|s| s.to_string())).all(|b| w.reps[r].m.verif_delta_status().contains_key(&b));
+            if !all_applied {
+                continue;
+            }
+            if let Ok((mut tgt, _)) = fresh_on(&RawStore::new(), "C09 empty meld target") {
+                w.focus();
+                let src = &w.reps[r].m;
+                cx.count("retried_commit_propagations");
+                let mo = crate::guard::call("meld", || tgt.meld(src).map(|_| ()).map_err(|e| e.to_string()));
+                let ro = crate::guard::call("refresh", || tgt.refresh().map_err(|e| e.to_string()));
+                let tv = strip_anchors(&view(&tgt));
+                // (compared with what the LIVE committer shows: its storage may hold melded blocks it has not
+                // refreshed yet, which meld does not forward)
+                let live = strip_anchors(&w.view(r));
+                if !matches!(mo, Ok(Ok(()))) || !matches!(ro, Ok(Ok(()))) || tv != live {
+                    cx.violation("C09", "C09:retried-commit-does-not-propagate-by-meld", sc, &h, detail(json!({"meld": format!("{:?}", mo), "refresh": format!("{:?}", ro), "differs": diff_keys(&tv, &live), "target": tv, "committer": live})));
+                    return;
+                }
+            }
         }
     }
 
